@@ -21,10 +21,13 @@ import (
 // Part "roundtrip" (IN): every property name x value x request spelling x
 // xml:lang x resource kind: PROPPATCH set, PROPFIND by name / allprop /
 // propname, PROPPATCH remove, PROPFIND again.
-// Parts "seq-file", "seq-collection" (SEQ, explicit-state to closure): every
-// PROPPATCH request of one or two set/remove instructions over a small name x
-// value universe, from every reachable property state; after every request a
-// PROPFIND by name and an allprop PROPFIND are compared with a map model.
+// Parts "seq-*" (SEQ, explicit-state to closure): every PROPPATCH request of
+// one or two set/remove instructions, each instruction (one DAV:set or
+// DAV:remove element) listing 1, 2 or 3 distinct properties in every order,
+// over a small name x value universe, from every reachable property state
+// (so present and absent properties are mixed in every way); after every
+// request a PROPFIND by name and an allprop PROPFIND are compared with a map
+// model, and the PROPPATCH multistatus must name every property of the request.
 //
 // All XML the harness looks at (what it sent and what the handler answered)
 // is read with the standard library's encoding/xml, never with the package's
@@ -176,44 +179,69 @@ type c47Instr struct {
 
 func (i c47Instr) name() xml.Name { return xml.Name{Space: i.NS, Local: i.Local} }
 
-// c47Body writes a propertyupdate document. spelling: 0 = default namespace
-// declared on the property element, 1 = prefix declared on the property
-// element, 2 = prefix declared on the document element.
-func c47Body(instrs []c47Instr, spelling int) string {
+// c47Op is one instruction of a propertyupdate document: one DAV:set or
+// DAV:remove element whose DAV:prop lists these properties in this order
+// (all entries carry the same Remove flag).
+type c47Op []c47Instr
+
+func (o c47Op) remove() bool {
+	for _, in := range o {
+		if in.Remove != o[0].Remove {
+			panic("c47: set and remove properties mixed in one instruction")
+		}
+	}
+	return o[0].Remove
+}
+
+// c47One is the request with the single one-property instruction in.
+func c47One(in c47Instr) []c47Op { return []c47Op{{in}} }
+
+// c47Body writes a propertyupdate document with one DAV:set / DAV:remove
+// element per op. spelling: 0 = default namespace declared on the property
+// element, 1 = prefix declared on the property element, 2 = prefix declared
+// on the document element.
+func c47Body(ops []c47Op, spelling int) string {
 	var b strings.Builder
 	b.WriteString(`<?xml version="1.0" encoding="utf-8"?><D:propertyupdate xmlns:D="DAV:"`)
 	pfx := map[string]string{"DAV:": "D"}
 	if spelling == 2 {
-		for _, in := range instrs {
-			if _, ok := pfx[in.NS]; !ok && in.NS != "" {
-				pfx[in.NS] = fmt.Sprintf("r%d", len(pfx))
-				fmt.Fprintf(&b, ` xmlns:%s="%s"`, pfx[in.NS], in.NS)
+		for _, op := range ops {
+			for _, in := range op {
+				if _, ok := pfx[in.NS]; !ok && in.NS != "" {
+					pfx[in.NS] = fmt.Sprintf("r%d", len(pfx))
+					fmt.Fprintf(&b, ` xmlns:%s="%s"`, pfx[in.NS], in.NS)
+				}
 			}
 		}
 	}
 	b.WriteString(">")
-	for _, in := range instrs {
+	for _, op := range ops {
 		kind := "set"
-		val := in.Value
-		if in.Remove {
-			kind, val = "remove", ""
-		}
-		lang := ""
-		if in.Lang != "" {
-			lang = fmt.Sprintf(` xml:lang="%s"`, in.Lang)
+		if op.remove() {
+			kind = "remove"
 		}
 		fmt.Fprintf(&b, "<D:%s><D:prop>", kind)
-		switch {
-		case spelling == 0:
-			fmt.Fprintf(&b, `<%s xmlns="%s"%s>%s</%s>`, in.Local, in.NS, lang, val, in.Local)
-		case in.NS == "":
-			fmt.Fprintf(&b, `<%s%s>%s</%s>`, in.Local, lang, val, in.Local)
-		case spelling == 1 && in.NS != "DAV:":
-			fmt.Fprintf(&b, `<p:%s xmlns:p="%s"%s>%s</p:%s>`, in.Local, in.NS, lang, val, in.Local)
-		case spelling == 1:
-			fmt.Fprintf(&b, `<D:%s%s>%s</D:%s>`, in.Local, lang, val, in.Local)
-		default:
-			fmt.Fprintf(&b, `<%s:%s%s>%s</%s:%s>`, pfx[in.NS], in.Local, lang, val, pfx[in.NS], in.Local)
+		for _, in := range op {
+			val := in.Value
+			if in.Remove {
+				val = ""
+			}
+			lang := ""
+			if in.Lang != "" {
+				lang = fmt.Sprintf(` xml:lang="%s"`, in.Lang)
+			}
+			switch {
+			case spelling == 0:
+				fmt.Fprintf(&b, `<%s xmlns="%s"%s>%s</%s>`, in.Local, in.NS, lang, val, in.Local)
+			case in.NS == "":
+				fmt.Fprintf(&b, `<%s%s>%s</%s>`, in.Local, lang, val, in.Local)
+			case spelling == 1 && in.NS != "DAV:":
+				fmt.Fprintf(&b, `<p:%s xmlns:p="%s"%s>%s</p:%s>`, in.Local, in.NS, lang, val, in.Local)
+			case spelling == 1:
+				fmt.Fprintf(&b, `<D:%s%s>%s</D:%s>`, in.Local, lang, val, in.Local)
+			default:
+				fmt.Fprintf(&b, `<%s:%s%s>%s</%s:%s>`, pfx[in.NS], in.Local, lang, val, pfx[in.NS], in.Local)
+			}
 		}
 		fmt.Fprintf(&b, "</D:prop></D:%s>", kind)
 	}
@@ -381,11 +409,24 @@ func c47Compare(w *vx.W, s *c47Srv, model map[xml.Name]c47Prop, names []xml.Name
 // c47Patch sends one PROPPATCH and updates the model from the request
 // document (as read by encoding/xml) for the properties the response reports
 // with status 200. It returns false after reporting a failure.
-func c47Patch(w *vx.W, s *c47Srv, model map[xml.Name]c47Prop, instrs []c47Instr, spelling int, tag string, trig func(xml.Name) string, ctx func() string) (applied bool, ok bool) {
-	body := c47Body(instrs, spelling)
+func c47Patch(w *vx.W, s *c47Srv, model map[xml.Name]c47Prop, ops []c47Op, spelling int, tag string, trig func(xml.Name) string, ctx func() string) (applied bool, ok bool) {
+	body := c47Body(ops, spelling)
 	sent, err := c47Parse(body)
 	if err != nil {
 		panic("c47: harness wrote a malformed request: " + err.Error() + ": " + body)
+	}
+	var instrs []c47Instr
+	for i, op := range ops {
+		// the request as read back by encoding/xml must be the request that was meant
+		if i >= len(sent) || len(sent[i].Props) != len(op) || (sent[i].Kind == "remove") != op.remove() {
+			panic("c47: request does not read back as written: " + body)
+		}
+		for j, in := range op {
+			if sent[i].Props[j].Name != in.name() {
+				panic("c47: request does not read back as written: " + body)
+			}
+		}
+		instrs = append(instrs, op...)
 	}
 	code, resp := s.do("PROPPATCH", body)
 	protected := false
@@ -407,6 +448,14 @@ func c47Patch(w *vx.W, s *c47Srv, model map[xml.Name]c47Prop, instrs []c47Instr,
 	for _, g := range groups {
 		for _, p := range g.Props {
 			st[p.Name] = g.Status
+		}
+	}
+	for _, op := range ops {
+		for _, in := range op {
+			if _, named := st[in.name()]; !named {
+				w.Failf(tag+"/proppatch/property-missing-from-response/"+c47OpClass(op), "PROPPATCH %s: the multistatus response does not name %v: %s. %s", body, in.name(), resp, ctx())
+				return false, false
+			}
 		}
 	}
 	all200 := true
@@ -436,6 +485,18 @@ func c47Patch(w *vx.W, s *c47Srv, model map[xml.Name]c47Prop, instrs []c47Instr,
 		}
 	}
 	return true, true
+}
+
+// c47OpClass names the kind of an instruction in signatures.
+func c47OpClass(op c47Op) string {
+	k := "set"
+	if op.remove() {
+		k = "remove"
+	}
+	if len(op) > 1 {
+		k += "-of-several-properties"
+	}
+	return k
 }
 
 // ---------------------------------------------------------------- IN part
@@ -469,7 +530,7 @@ func c47RoundTrip(w *vx.W, x c47RT) {
 	}
 	n := in.name()
 	ctx := func() string {
-		return fmt.Sprintf("resource %s, request %s", x.Res, c47Body([]c47Instr{in}, x.Spelling))
+		return fmt.Sprintf("resource %s, request %s", x.Res, c47Body(c47One(in), x.Spelling))
 	}
 	var sentProp c47Prop
 	// Abstract situation for signatures: the class of the value; the class of the
@@ -481,7 +542,7 @@ func c47RoundTrip(w *vx.W, x c47RT) {
 		}
 		return c47ValueClass(sentProp)
 	}
-	if g, err := c47Parse(c47Body([]c47Instr{in}, x.Spelling)); err == nil && len(g) == 1 && len(g[0].Props) == 1 {
+	if g, err := c47Parse(c47Body(c47One(in), x.Spelling)); err == nil && len(g) == 1 && len(g[0].Props) == 1 {
 		sentProp = g[0].Props[0]
 	} else {
 		panic(fmt.Sprintf("c47: cannot read back own request: %v %v", g, err))
@@ -489,7 +550,7 @@ func c47RoundTrip(w *vx.W, x c47RT) {
 	if sentProp.Name != n {
 		panic(fmt.Sprintf("c47: request spells %v, wanted %v", sentProp.Name, n))
 	}
-	if _, ok := c47Patch(w, s, model, []c47Instr{in}, x.Spelling, "C47/set", func(xml.Name) string { return c47ValueClass(sentProp) }, ctx); !ok {
+	if _, ok := c47Patch(w, s, model, c47One(in), x.Spelling, "C47/set", func(xml.Name) string { return c47ValueClass(sentProp) }, ctx); !ok {
 		return
 	}
 	nsTrig := func(n xml.Name) string { return c47NSClass(n.Space) }
@@ -515,8 +576,8 @@ func c47RoundTrip(w *vx.W, x c47RT) {
 	w.Outcome("value:" + c47ValueClass(sentProp))
 	// remove
 	rm := c47Instr{Remove: true, NS: x.NS, Local: x.Local}
-	ctx2 := func() string { return ctx() + " then " + c47Body([]c47Instr{rm}, x.Spelling) }
-	if _, ok := c47Patch(w, s, model, []c47Instr{rm}, x.Spelling, "C47/remove", func(xml.Name) string { return "remove" }, ctx2); !ok {
+	ctx2 := func() string { return ctx() + " then " + c47Body(c47One(rm), x.Spelling) }
+	if _, ok := c47Patch(w, s, model, c47One(rm), x.Spelling, "C47/remove", func(xml.Name) string { return "remove" }, ctx2); !ok {
 		return
 	}
 	if len(model) != 0 {
@@ -531,7 +592,7 @@ func c47RoundTrip(w *vx.W, x c47RT) {
 // ---------------------------------------------------------------- SEQ part
 
 type c47Req struct {
-	Instrs []c47Instr `json:"proppatch"`
+	Ops []c47Op `json:"proppatch"` // the instructions of one PROPPATCH request, in document order
 }
 
 type c47State struct {
@@ -540,28 +601,99 @@ type c47State struct {
 	last  map[xml.Name]string // last thing that happened to a name (for signatures)
 }
 
-func c47Seq(c *vx.Ctx, part, res string, names []xml.Name, values []string) {
-	var instrs []c47Instr
-	for _, n := range names {
-		for _, v := range values {
-			instrs = append(instrs, c47Instr{NS: n.Space, Local: n.Local, Value: v})
+// c47Instructions returns every set and every remove instruction that lists
+// 1..maxProps distinct names out of names, in every order, a set instruction
+// with every assignment of values to its properties; fewest properties first.
+func c47Instructions(names []xml.Name, values []string, maxProps int) []c47Op {
+	var out []c47Op
+	var lists [][]xml.Name // ordered selections of k distinct names
+	var sel func(k int, cur []xml.Name)
+	sel = func(k int, cur []xml.Name) {
+		if len(cur) == k {
+			lists = append(lists, append([]xml.Name{}, cur...))
+			return
 		}
-		instrs = append(instrs, c47Instr{Remove: true, NS: n.Space, Local: n.Local})
+	next:
+		for _, n := range names {
+			for _, c := range cur {
+				if c == n {
+					continue next
+				}
+			}
+			sel(k, append(cur, n))
+		}
 	}
+	for k := 1; k <= maxProps && k <= len(names); k++ {
+		lists = nil
+		sel(k, nil)
+		for _, l := range lists {
+			// sets: every assignment of values (odometer, first name most significant)
+			idx := make([]int, k)
+			for {
+				op := c47Op{}
+				for i, n := range l {
+					op = append(op, c47Instr{NS: n.Space, Local: n.Local, Value: values[idx[i]]})
+				}
+				out = append(out, op)
+				i := k - 1
+				for ; i >= 0; i-- {
+					idx[i]++
+					if idx[i] < len(values) {
+						break
+					}
+					idx[i] = 0
+				}
+				if i < 0 {
+					break
+				}
+			}
+			op := c47Op{}
+			for _, n := range l {
+				op = append(op, c47Instr{Remove: true, NS: n.Space, Local: n.Local})
+			}
+			out = append(out, op)
+		}
+	}
+	return out
+}
+
+// c47Seq explores, to closure of the property state, every PROPPATCH request
+// of one instruction out of c47Instructions(names, values, maxProps) and every
+// request of two instructions out of c47Instructions(names, values, pairProps),
+// in both orders: all of them (allPairs), or those in which at least one
+// instruction names a single property (!allPairs).
+func c47Seq(c *vx.Ctx, part, res string, names []xml.Name, values []string, maxProps, pairProps int, allPairs bool) {
+	instrs := c47Instructions(names, values, maxProps)
 	var ops []c47Req
 	for _, a := range instrs {
-		ops = append(ops, c47Req{[]c47Instr{a}})
+		ops = append(ops, c47Req{[]c47Op{a}})
 	}
-	for _, a := range instrs {
-		for _, b := range instrs {
-			ops = append(ops, c47Req{[]c47Instr{a, b}})
+	pinstrs := c47Instructions(names, values, pairProps)
+	for _, a := range pinstrs {
+		for _, b := range pinstrs {
+			if allPairs || len(a) == 1 || len(b) == 1 {
+				ops = append(ops, c47Req{[]c47Op{a, b}})
+			}
 		}
 	}
-	// requests that also name a protected live property: nothing may be applied
+	// requests that also name a protected live property (in an instruction of its
+	// own, or inside an instruction together with dead properties): nothing may
+	// be applied
+	set0 := c47Instr{NS: names[0].Space, Local: names[0].Local, Value: values[1]}
+	rm0 := c47Instr{Remove: true, NS: names[0].Space, Local: names[0].Local}
+	rm1 := c47Instr{Remove: true, NS: names[1].Space, Local: names[1].Local}
+	etag := c47Instr{NS: "DAV:", Local: "getetag", Value: "x"}
+	dispname := c47Instr{Remove: true, NS: "DAV:", Local: "displayname"}
 	ops = append(ops,
-		c47Req{[]c47Instr{instrs[1], {NS: "DAV:", Local: "getetag", Value: "x"}}},
-		c47Req{[]c47Instr{{Remove: true, NS: "DAV:", Local: "displayname"}, instrs[len(values)]}},
+		c47Req{[]c47Op{{set0}, {etag}}},
+		c47Req{[]c47Op{{dispname}, {rm0}}},
 	)
+	if maxProps > 1 {
+		ops = append(ops,
+			c47Req{[]c47Op{{set0, etag}}},
+			c47Req{[]c47Op{{rm0, dispname, rm1}}},
+		)
+	}
 	c.Note(part+".requests", len(ops))
 	vx.Seq(c, vx.SeqSpec[*c47State, c47Req]{
 		Part:  part,
@@ -571,19 +703,18 @@ func c47Seq(c *vx.Ctx, part, res string, names []xml.Name, values []string) {
 			return &c47State{s: c47New(res), model: map[xml.Name]c47Prop{}, last: map[xml.Name]string{}}
 		},
 		Apply: func(w *vx.W, st *c47State, op c47Req) bool {
-			ctx := func() string { return "last PROPPATCH " + c47Body(op.Instrs, 0) }
-			applied, ok := c47Patch(w, st.s, st.model, op.Instrs, 0, "C47/seq", func(xml.Name) string { return "any" }, ctx)
+			ctx := func() string { return "last PROPPATCH " + c47Body(op.Ops, 0) }
+			applied, ok := c47Patch(w, st.s, st.model, op.Ops, 0, "C47/seq", func(xml.Name) string { return "any" }, ctx)
 			if !ok {
 				return false
 			}
-			for _, in := range op.Instrs {
-				switch {
-				case !applied:
-					st.last[in.name()] = "rejected-request"
-				case in.Remove:
-					st.last[in.name()] = "remove"
-				default:
-					st.last[in.name()] = "set"
+			for _, o := range op.Ops {
+				for _, in := range o {
+					if applied {
+						st.last[in.name()] = c47OpClass(o)
+					} else {
+						st.last[in.name()] = "rejected-request"
+					}
 				}
 			}
 			trig := func(n xml.Name) string {
@@ -627,9 +758,10 @@ func TestVerif_C47(t *testing.T) {
 	vx.Run(t, "C47", func(c *vx.Ctx) {
 		nss := []string{"", "http://ns.example/", "urn:x:y", "DAV:"}
 		locals := []string{"a", "b-c", "x.y", "_u"}
-		c.Rule(fmt.Sprintf("roundtrip: resource {/f file, /d collection} x namespace %q x local name %q x value (inner XML as written) %q x spelling {default namespace on the property element, prefix declared on the property element, prefix declared on the document element} x xml:lang {none, en}: PROPPATCH set; PROPFIND by name (plus a never-set name), allprop and propname; PROPPATCH remove; PROPFIND by name and allprop again. The content the harness sent and the content returned are both read with encoding/xml and compared as namespace-resolved token streams (element names and attributes with namespace URIs, character data; comments and prefix spelling ignored); a set property must come back with status 200 and equal content, a removed or never-set one with status 404 and must be missing from allprop. seq: explicit-state search to closure over PROPPATCH requests of 1 or 2 set/remove instructions (and 2 requests naming a protected live property, which must apply nothing) over 3 (thorough 4) names x 2 (thorough 4) values; state = dead properties of the resource (DeadPropsHolder) + model; the same comparison after every request. non-trivial = set accepted and all PROPFIND answers compared / transition applied and compared", nss, locals, c47Values))
+		c.Rule(fmt.Sprintf("roundtrip: resource {/f file, /d collection} x namespace %q x local name %q x value (inner XML as written) %q x spelling {default namespace on the property element, prefix declared on the property element, prefix declared on the document element} x xml:lang {none, en}: PROPPATCH set; PROPFIND by name (plus a never-set name), allprop and propname; PROPPATCH remove; PROPFIND by name and allprop again. The content the harness sent and the content returned are both read with encoding/xml and compared as namespace-resolved token streams (element names and attributes with namespace URIs, character data; comments and prefix spelling ignored); a set property must come back with status 200 and equal content, a removed or never-set one with status 404 and must be missing from allprop. seq-file / seq-collection: explicit-state search to closure over PROPPATCH requests over 3 names (two share a namespace, two share a local name) x 2 values; an instruction is one DAV:set or DAV:remove element whose DAV:prop lists k distinct names in every order (a set with every assignment of values); requests = every single instruction with k <= 3, every two-instruction request in both orders with k <= 2 and at least one k = 1 (thorough: every pair with k <= 3), and 4 requests naming a protected live property in an instruction of its own or inside a several-property instruction, which must apply nothing; every request is applied in every reachable property state, so the properties an instruction names are present and absent in every combination. thorough adds seq-4names-* (4 names incl. one without namespace x 2 values, single instructions k <= 3, pairs k <= 2 with at least one k = 1) and seq-wide-* (4 names x 4 values, one-property instructions, every pair). State = dead properties of the resource (DeadPropsHolder) + model; after every request the PROPPATCH multistatus must name every property of the request (status 200 for all of them unless a protected property is named) and the same PROPFIND comparison is made. non-trivial = set accepted and all PROPFIND answers compared / transition applied and compared", nss, locals, c47Values))
 		c.Assume("in-memory file system only (NewMemFS, NewMemLS); Depth 0; no locks held; no Prefix")
 		c.Assume("xml:lang is sent but its return is not part of the oracle; the position of properties inside the response and the live properties are ignored")
+		c.Assume("one instruction never lists the same property name twice (the order of processing inside one DAV:prop is not defined by the property); the same name may occur in both instructions of a request, which are processed in document order")
 		c.Assume("a PROPPATCH that names a protected live property is expected to apply nothing (documented atomicity); the model follows the per-property status of the PROPPATCH response otherwise")
 
 		vx.Enumerate(c, "roundtrip", vx.Opts{}, func(yield func(c47RT) bool) {
@@ -652,11 +784,16 @@ func TestVerif_C47(t *testing.T) {
 
 		names := []xml.Name{{Space: "http://ns.example/", Local: "a"}, {Space: "http://ns.example/", Local: "b-c"}, {Space: "urn:x:y", Local: "a"}}
 		values := []string{"", "text"}
+		// quick: 2 instructions of <= 2 properties, one of them of 1; thorough: every pair of instructions of <= 3
+		c47Seq(c, "seq-file", "/f", names, values, 3, vx.Pick(c, 2, 3), !c.Quick())
+		c47Seq(c, "seq-collection", "/d", names, values, 3, vx.Pick(c, 2, 3), !c.Quick())
 		if !c.Quick() {
-			names = append(names, xml.Name{Space: "", Local: "_u"})
-			values = append(values, `<n:e xmlns:n="u">x</n:e>`, "a&amp;b")
+			names4 := append(append([]xml.Name{}, names...), xml.Name{Space: "", Local: "_u"})
+			values4 := append(append([]string{}, values...), `<n:e xmlns:n="u">x</n:e>`, "a&amp;b")
+			c47Seq(c, "seq-4names-file", "/f", names4, values, 3, 2, false)
+			c47Seq(c, "seq-4names-collection", "/d", names4, values, 3, 2, false)
+			c47Seq(c, "seq-wide-file", "/f", names4, values4, 1, 1, true)
+			c47Seq(c, "seq-wide-collection", "/d", names4, values4, 1, 1, true)
 		}
-		c47Seq(c, "seq-file", "/f", names, values)
-		c47Seq(c, "seq-collection", "/d", names, values)
 	})
 }
